@@ -155,8 +155,9 @@ def eval_size(schema, size):
     return int(size, 0)
 
 
-def tree(schema, type_name):
-    """resolved type tree (driver JSON form)"""
+def tree(schema, type_name, sizer=lambda n: 'num_of_' + n):
+    """resolved type tree (driver JSON form); `sizer` names the implicit counter of `T x<>` / `T x<n>`
+    (`num_of_x` for the prophy language, `x_len` for isar)"""
     d = schema.resolve(type_name)
     if isinstance(d, str):
         if d == 'byte':
@@ -166,11 +167,11 @@ def tree(schema, type_name):
         return {'k': 'enum', 'name': d.name, 'es': [[n, eval_size(schema, v) % (1 << 32)] for n, v in d.members]}
     if isinstance(d, Union):
         return {'k': 'union', 'name': d.name,
-                'arms': [{'n': n, 'd': eval_size(schema, disc), 't': tree(schema, t)} for n, disc, t in d.arms]}
+                'arms': [{'n': n, 'd': eval_size(schema, disc), 't': tree(schema, t, sizer)} for n, disc, t in d.arms]}
     if isinstance(d, Struct):
         ms = []
         for m in d.members:
-            t = tree(schema, m.type)
+            t = tree(schema, m.type, sizer)
             if m.mk in ('plain', 'optional', 'greedy'):
                 ms.append({'n': m.name, 't': t, 'mk': m.mk})
             elif m.mk == 'fixed':
@@ -178,11 +179,11 @@ def tree(schema, type_name):
             elif m.mk == 'dynext':
                 ms.append({'n': m.name, 't': t, 'mk': 'dyn', 'sizer': m.sizer})
             elif m.mk == 'dyn':
-                ms.append({'n': 'num_of_' + m.name, 't': {'k': 'prim', 'p': 'u32'}, 'mk': 'plain'})
-                ms.append({'n': m.name, 't': t, 'mk': 'dyn', 'sizer': 'num_of_' + m.name})
+                ms.append({'n': sizer(m.name), 't': {'k': 'prim', 'p': 'u32'}, 'mk': 'plain'})
+                ms.append({'n': m.name, 't': t, 'mk': 'dyn', 'sizer': sizer(m.name)})
             elif m.mk == 'limited':
-                ms.append({'n': 'num_of_' + m.name, 't': {'k': 'prim', 'p': 'u32'}, 'mk': 'plain'})
-                ms.append({'n': m.name, 't': t, 'mk': 'limited', 'sizer': 'num_of_' + m.name,
+                ms.append({'n': sizer(m.name), 't': {'k': 'prim', 'p': 'u32'}, 'mk': 'plain'})
+                ms.append({'n': m.name, 't': t, 'mk': 'limited', 'sizer': sizer(m.name),
                            'size': eval_size(schema, m.size)})
         return {'k': 'struct', 'name': d.name, 'ms': ms}
     raise ValueError(d)
